@@ -36,7 +36,7 @@ from operon_ai.providers import LLMResponse, ToolCall, MockProvider
 ID = "C03"
 LEVEL = "exploration"
 ENGINE = "seq+threads"
-RUNS = {"quick": 60_000, "thorough": 4_000_000}
+RUNS = {"quick": 50_000, "thorough": 4_000_000}
 RULE = ("seeded histories (1-3 constructor tools + 3-10 operations, <=14 thorough) over {register/re-register a tool "
         "(requirements declared as set/frozenset/list/tuple through required_capabilities or capabilities, via "
         "register_function / SimpleTool / a custom Tool class), metabolize(expression) on the auto-detected and each "
